@@ -355,6 +355,8 @@ func extractFacts(args []string) {
 	}
 	if *out != "" {
 		extractUnicode(filepath.Join(filepath.Dir(*out), "Unicode.lean"))
+		// Go→Lean translator (trans*.go): Trans.lean, Trans<Pkg>.lean next to the facts; rejections are printed as `trans-reject …`
+		trWrite(*repo, filepath.Dir(*out))
 	}
 }
 
